@@ -54,6 +54,7 @@ class Exec:
         self.scan_cls, self.filter_cls, self.config_cls, self.field = scan_cls, filter_cls, config_cls, field
         self.params = list(view.param_names)
         self.sinks: list[Sink] = []
+        self.raises: list[Formula] = []  # path conditions of the `raise` statements of the (inlined) entry point
         self.maps: list[tuple] = []  # (term, node)
         self.ctors: list[str] = []
         self._rets: list[list] = []  # return alternatives of the helper being evaluated
@@ -432,6 +433,7 @@ class Exec:
                             merged[name] = [(f_and([c, g]), t) for g, t in a1] + [(f_and([f_not(c), g]), t) for g, t in a2]
                     env = merged
             elif isinstance(s, (ast.Raise,)):
+                self.raises.append(f_and([*self._outer, pc]))
                 return env, pc, True
             elif isinstance(s, ast.Return):
                 if s.value is not None:
@@ -474,6 +476,28 @@ def _cons(f: Formula, params: list[str]) -> Formula:
 
     have = atoms_of(f)
     return f_and([f_or([f_not(atom(f"{p} is None")), f_not(atom(f"bool({p})"))]) for p in params if f"{p} is None" in have and f"bool({p})" in have])
+
+
+def _plain_condition(text: str, params: list[str]) -> bool:
+    """Is the atom a condition on the entry point's parameters / module constants that needs no interpretation of calls?"""
+    try:
+        e = ast.parse(text, mode="eval").body
+    except SyntaxError:
+        return False
+    for n in ast.walk(e):
+        if isinstance(n, ast.Call) and not (isinstance(n.func, ast.Name) and n.func.id in ("bool", "len", "tuple") and len(n.args) == 1 and not n.keywords):
+            return False
+        if isinstance(n, (ast.Lambda, ast.GeneratorExp, ast.ListComp, ast.SetComp, ast.DictComp, ast.Attribute, ast.Subscript, ast.Await, ast.Yield, ast.NamedExpr, ast.Starred)):
+            return False
+        if isinstance(n, ast.Name) and n.id not in params and n.id not in ("bool", "len", "tuple", "None", "True", "False") and not n.id.isupper():
+            return False
+    return True
+
+
+def _mentions(t, what) -> bool:
+    if t == what:
+        return True
+    return isinstance(t, tuple) and any(_mentions(x, what) for x in t if isinstance(x, (tuple, list))) or isinstance(t, list) and any(_mentions(x, what) for x in t)
 
 
 def _is_empty(alts) -> bool:
@@ -524,6 +548,7 @@ def run(repo: Repo, res: Result, rule: str, scan_cls: ClassInfo | None, filter_c
     conv_ok, conv_detail = True, ""
     none_ok, none_detail = True, ""
     regex_ok, regex_detail = True, ""
+    both_ok, both_detail, both_note = True, "", ""
     undecided = None
     seen_glob = False
     for sk in ex.sinks:
@@ -567,12 +592,26 @@ def run(repo: Repo, res: Result, rule: str, scan_cls: ClassInfo | None, filter_c
                     pass
                 else:
                     regex_ok, regex_detail = False, f"with only `{REGEX}` given the scan receives {show_term(t)} instead of the user's regular expressions"
+            # regex patterns given *together with* globs and the call is not rejected: they must not be dropped silently
+            if sat(f_and([full, G, R])) and t[0] != "other" and not _mentions(t, ("param", REGEX)) and not imp(f_and([G, R]), f_or(ex.raises)):
+                from core.guards import atoms_of as _atoms, show as _show
+
+                hidden = sorted(a for a in _atoms(full) if not _plain_condition(a, pnames))
+                if hidden:
+                    # the rejection may be hidden in a condition this analysis does not read (a table of checks, a helper object):
+                    # no verdict from here - the mutual exclusion itself is C13's obligation
+                    both_note = f"not decided here: the scan is reached under `{hidden[0][:80]}`, which is not a plain condition on the parameters"
+                    continue
+
+                both_detail = f"`{REGEX}` given together with `{GLOB}` is not rejected on every path (the scan is reached under `{_show(full)[:160]}`), and there the scan receives {show_term(t)}: the user's regular expressions are accepted and then silently dropped - they exclude nothing"
+                both_ok = False
     if not seen_glob and not undecided:
         conv_ok, conv_detail = False, f"no path on which `{GLOB}` is non-empty reaches the scan: the glob patterns are ignored"
     if undecided and conv_ok and none_ok and regex_ok:
         res.undecide(rule, base + "::patterns handed to the scan", undecided, w)
     res.add(rule, f"{base}::{GLOB} all converted", conv_ok, f"every element of `{GLOB}` is converted by {', '.join(c.rsplit('.', 1)[-1] for c in converters) or '?'} before it reaches the scan" if conv_ok else conv_detail, w, kind="flow")
     res.add(rule, f"{base}::{REGEX} handed to the scan unchanged", regex_ok, f"`{REGEX}` reach the scan as given" if regex_ok else regex_detail, w, kind="flow")
+    res.add(rule, f"{base}::{REGEX} never accepted and dropped", both_ok, (both_note or f"whenever `{REGEX}` and `{GLOB}` are both given the call is rejected before the scan is built (or the regular expressions reach the scan)") if both_ok else both_detail, w, nontrivial=not both_note, kind="flow")
     res.add(rule, f"{base}::patterns never None at the scan", none_ok, ("the filter replaces a missing pattern tuple by an empty one itself" if consumer_tolerates_none else "the pattern tuple handed to the scan is never None") if none_ok else none_detail, w, kind="flow")
     # every other place where the converter is mapped over a public parameter
     seen = set()
